@@ -98,6 +98,16 @@ type ContractDB struct {
 	Regions map[string][]string
 	PurePrefixes []string // packages whose functions/interface methods are assumed not to modify tracked state
 	Tables []*TableDecl
+	GInvs  []*GInv
+}
+
+// GInv: package invariant over initialise-once globals.
+type GInv struct {
+	E       SExpr
+	Src     string
+	Globals []string
+	Pkg     string
+	Props   []string
 }
 
 type GuardDecl struct {
@@ -111,7 +121,7 @@ func NewContractDB() *ContractDB {
 	return &ContractDB{Funcs: map[string]*FuncContract{}, Specs: map[string]*SpecFunc{}, Preds: map[string]*Pred{}, Lemmas: map[string]*Lemma{}, Regions: map[string][]string{}}
 }
 
-var topKW = map[string]bool{"spec": true, "pred": true, "def": true, "lemma": true, "axiom": true, "func": true, "assumed": true, "interface": true, "region": true, "guarded": true, "props": true, "purepkg": true, "table": true}
+var topKW = map[string]bool{"spec": true, "pred": true, "def": true, "lemma": true, "axiom": true, "func": true, "assumed": true, "interface": true, "region": true, "guarded": true, "props": true, "purepkg": true, "table": true, "ginv": true}
 var clauseKW = map[string]bool{"requires": true, "ensures": true, "modifies": true, "nopanic": true, "nooverflow": true, "inline": true, "loop": true, "use": true, "mode": true, "by": true, "prop": true, "pure": true, "ghost": true, "nolocks": true, "writes": true, "writesonly": true, "trigger": true, "staged": true, "stagedinv": true, "unreachable": true}
 
 type rawItem struct {
@@ -229,6 +239,23 @@ func (db *ContractDB) LoadContracts(path, pkgPath string) error {
 			props = strings.Fields(it.head)
 		case "purepkg":
 			db.PurePrefixes = append(db.PurePrefixes, strings.Fields(it.head)...)
+		case "ginv":
+			// ginv <expr> over g1, g2: a package invariant over package-level variables that are
+			// written only by the package initialiser and never handed out (checked on every run):
+			// obligation at the end of init, assumption at the entry of every other function.
+			parts := strings.Split(it.head, " over ")
+			if len(parts) != 2 {
+				return fmt.Errorf("%s: expected 'ginv <expr> over <globals>'", where)
+			}
+			e, err := parseSpec(strings.TrimSpace(parts[0]))
+			if err != nil {
+				return fmt.Errorf("%s: %v", where, err)
+			}
+			gi := &GInv{E: e, Src: strings.TrimSpace(parts[0]), Pkg: pkgPath, Props: props}
+			for _, g := range strings.Split(parts[1], ",") {
+				gi.Globals = append(gi.Globals, strings.TrimSpace(g))
+			}
+			db.GInvs = append(db.GInvs, gi)
 		case "table":
 			td, err := parseTableDecl(it.head, pkgPath, props)
 			if err != nil {
